@@ -328,7 +328,7 @@ func checkC01(c *mc.Ctx) {
 		depth  int
 	}
 	rtAlpha := []MOp{opAddB, opAddC, opAddD, opAddAuto, opRmA, opRmB, opPcrA, opPcrB, opPcrX, opTables,
-		opDataA1, opDataAfit, opDataAs1, opDataAs2, opDataA3, opDataA17, opDataARAI, opDataAprv, opDataAnor,
+		opDataA1, opDataAfit, opDataAs1, opDataAs2, opDataA3, opDataA17, opDataARAI, opDataAprv, opDataAltw, opDataAnor,
 		opDataB1, opDataBRAI, opDataAuto, opDataX, opPktNull, opAddMany, opRmMany}
 	scens := []scen{
 		{"rt-empty", 2, nil, append([]MOp{opAddA}, rtAlpha...), depth},
